@@ -1005,15 +1005,8 @@ pub async fn list_scenario(seed: u64) {
         tr(json!({"ev": "l_push", "v": v}));
         yields(if rng.chance(1, 3) { rng.below(10) } else { 0 }).await;
     }
-    if !keep_dist {
-        drop(dist);
-        handles.push(spawn_d(1, async {}));
-    } else {
-        handles.push(spawn_d(1, async move {
-            yields(9000).await;
-            drop(dist);
-        }));
-    }
+    // without keep_dist the distributor handle goes away now, otherwise it outlives the whole scenario
+    let dist = if keep_dist { Some(dist) } else { None };
     if ending == 1 {
         tr(json!({"ev": "l_drop", "distributor_alive": keep_dist}));
         drop(obs);
@@ -1027,6 +1020,7 @@ pub async fn list_scenario(seed: u64) {
     }
     let left = wait_tasks(&mut handles, &[], 4000).await;
     tr(json!({"ev": "l_fin", "pending": left}));
+    drop(dist);
     for h in handles {
         h.abort();
     }
